@@ -269,7 +269,10 @@ impl Segment {
 
                 let last_message = &last_messages[0];
                 let last_message_timestamp = last_message.timestamp;
-                last_message_timestamp + expiry.as_micros() <= now.as_micros()
+                match last_message_timestamp.checked_add(expiry.as_micros()) {
+                    Some(expires_at) => expires_at <= now.as_micros(),
+                    None => false,
+                }
             }
         }
     }
